@@ -9,6 +9,7 @@ import (
 	"regexp"
 	"sort"
 	"strconv"
+	"strings"
 	"sync"
 	"time"
 
@@ -17,6 +18,7 @@ import (
 	"github.com/siglens/siglens/pkg/ast/pipesearch"
 	"github.com/siglens/siglens/pkg/config"
 	eswriter "github.com/siglens/siglens/pkg/es/writer"
+	"github.com/siglens/siglens/pkg/hooks"
 	"github.com/siglens/siglens/pkg/segment/memory/limit"
 	"github.com/siglens/siglens/pkg/segment/query"
 	"github.com/siglens/siglens/pkg/segment/writer"
@@ -26,9 +28,15 @@ import (
 
 // A history is a list of steps; events carry ids 1..n in ingest order.
 type step struct {
-	Kind string `json:"kind"` // "flush" (ingest N events then flush) | "rotate"
+	// "flush" (ingest N events then flush) | "rotate" | "shutdown" (ingest N >= 0 events, NO flush, then the graceful
+	// shutdown writer.ForcedFlushToSegfile: AppendWipToSegfile(forceRotate=true) flushes the open block and rotates the
+	// segment in the same call; always the last step of a history)
+	Kind string `json:"kind"`
 	N    int    `json:"n"`
 }
+
+// does the step flush a block of its own events
+func (s step) flushes() bool { return (s.Kind == "flush" || s.Kind == "shutdown") && s.N > 0 }
 type history struct {
 	Steps []step `json:"steps"`
 	Index string `json:"index"`
@@ -52,6 +60,7 @@ type recovered struct {
 	Bad       []string `json:"bad"`        // rows whose content is not what was sent
 	Count     int64    `json:"stats_count"` // `* | stats count`
 	CountErr  string   `json:"stats_err"`
+	SumN      int64    `json:"stats_sum_n"` // `* | stats sum(n)` (-1: no number in the answer)
 	After     []int    `json:"ids_after_more_ingest"`
 	AfterErr  string   `json:"after_err"`
 	Bounded   map[int][]int `json:"ids_by_time_bounded_query_per_flush_step"`
@@ -266,6 +275,22 @@ func workerMain(args []string) {
 				flushLogs()
 			case "rotate":
 				writer.ForceRotateSegmentsForTest()
+			case "shutdown":
+				if st.N > 0 {
+					if err := ingest(h.Index, next, st.N); err != nil {
+						os.Exit(4)
+					}
+					next += st.N
+				}
+				// siglens calls this hook as the first statement of the rotation, i.e. right after the buffer flush of the
+				// forced flush has returned: the marker tells the oracle that this flush HAD COMPLETED when the crash hit
+				step := i
+				hooks.GlobalHooks.RotateSegment = func(segstore interface{}, streamId string, forceRotate bool) (bool, error) {
+					marker(dir, fmt.Sprintf("FLUSHED %d", step))
+					return false, nil
+				}
+				writer.ForcedFlushToSegfile()
+				hooks.GlobalHooks.RotateSegment = nil
 			}
 			marker(dir, fmt.Sprintf("DONE %d", i))
 		}
@@ -357,6 +382,28 @@ func workerMain(args []string) {
 				}
 			}
 		}
+		// a statistic over the CONTENT of the events (n = 7*id), answered from the per-segment statistics files
+		out.SumN = -1
+		if r, err := runQuery(h.Index, "* | stats sum(n)"); err == nil {
+			mb, _ := json.Marshal(r.Measures)
+			var ms []struct {
+				MeasureVal map[string]interface{} `json:"MeasureVal"`
+			}
+			if json.Unmarshal(mb, &ms) == nil && len(ms) > 0 {
+				for _, v := range ms[0].MeasureVal {
+					if c, ok := num(v); ok {
+						out.SumN = c
+					} else if s, ok := v.(string); ok {
+						var f float64
+						if _, err := fmt.Sscanf(strings.ReplaceAll(s, ",", ""), "%g", &f); err == nil {
+							out.SumN = int64(f)
+						}
+					}
+				}
+			}
+		} else if out.CountErr == "" {
+			out.CountErr = "stats sum(n): " + err.Error()
+		}
 		if h.Filter != "" {
 			if h.PQ {
 				log.SetLevel(log.InfoLevel)
@@ -382,7 +429,7 @@ func workerMain(args []string) {
 		out.Bounded = map[int][]int{}
 		next := 1
 		for i, st := range h.Steps {
-			if st.Kind != "flush" {
+			if !st.flushes() {
 				continue
 			}
 			lo, hi := tsOf(next), tsOf(next+st.N-1)
